@@ -12,4 +12,6 @@ DivInt == {-2, -1, 1, 2, 3}
 DivUns == {1, 2, 3}
 DivFlt == {-1, 1, 2}
 Empty == {}
+HalvesInt == {-1, 1, 3}
+HalvesUns == {1, 3}
 ====
